@@ -1323,20 +1323,64 @@ def run(chk):
     call = drv.methods(ex).get("__call__")
     if call is None:
         raise AnchorMissing("AsyncExecutor.__call__")
-    loops = [n for n in walk_body(call) if isinstance(n, ast.AsyncFor)]
-    if not loops:
-        raise AnchorMissing("AsyncExecutor.__call__: request loop (async for) not found")
-    trys = [t for t in source.ancestors(loops[0]) if isinstance(t, ast.Try)]
-    g = cfg_of(call)
-    for t in trys:
-        for h in t.handlers:
-            hn = [x for x in g.by_ast.get(id(h), [])]
-            if not hn:
-                chk.unknown("O9.5", f"AsyncExecutor.__call__: handler `except {u(h.type) if h.type else ''}` has no node in the control-flow graph", h)
-                continue
-            ok = all(g.exit.id not in g.reachable([x]) for x in hn)
-            chk.ob("O9.5", f"AsyncExecutor.__call__: handler `except {u(h.type) if h.type else ''}` never completes normally", ok, h,
-                   "every path from this handler ends in raise" if ok else "the handler can fall through / return: the executor future completes without exception")
+    # by role: the REQUEST is the call of execute_single, wherever it sits - in __call__ itself or in a helper method of the executor that __call__ reaches through self.<m>() calls
+    # (an extracted `_execute_request`, an extracted loop body, the whole loop moved into a helper). A chain is the list of (function, node) links from __call__ down to the
+    # request: every link but the last is a self.<helper>(...) call, the last is the execute_single call. The request LOOP is the innermost `async for` around a link.
+    ex_ci = next((c for c in model.table.classes if c.node is ex), None) or model.table.get("AsyncExecutor", drv.relpath)
+
+    def _anc_in(n, fn):
+        """ancestors of n inside fn (innermost first)"""
+        out = []
+        for a_ in source.ancestors(n):
+            if a_ is fn:
+                break
+            out.append(a_)
+        return out
+
+    def _chains_to(pred, fn, depth=0, seen=()):
+        out = [[(fn, n)] for n in walk_body(fn) if pred(n)]
+        if depth < 4:
+            for c in walk_body(fn):
+                if isinstance(c, ast.Call) and is_self_attr(c.func):
+                    h_ = model.table.method(ex_ci, c.func.attr)
+                    if h_ is not None and h_ is not fn and id(h_) not in seen:
+                        out += [[(fn, c)] + ch for ch in _chains_to(pred, h_, depth + 1, seen + (id(fn),))]
+        return out
+
+    req_chains = _chains_to(lambda n: isinstance(n, ast.Call) and last_attr(n.func) == "execute_single", call)
+    if not req_chains:
+        raise AnchorMissing("AsyncExecutor.__call__: no call of execute_single in it or in the executor methods it calls")
+
+    def _loop_of(chain):
+        """(index of the link, the loop): the innermost `async for` around a link of the chain (searched from the request upwards), or None"""
+        for i in range(len(chain) - 1, -1, -1):
+            for a_ in _anc_in(chain[i][1], chain[i][0]):
+                if isinstance(a_, ast.AsyncFor):
+                    return i, a_
+        return None
+
+    req_loops = [(_loop_of(ch), ch) for ch in req_chains]
+    if not any(lp for lp, _ in req_loops):
+        raise AnchorMissing("AsyncExecutor.__call__: request loop (async for) around the execute_single call not found")
+    # every handler that can catch what the request raises (a try whose BODY holds a link of the chain, in whichever function of the chain) must not complete normally
+    seen_h = set()
+    for ch in req_chains:
+        for fn_i, n_i in ch:
+            g = cfg_of(fn_i)
+            for t in _anc_in(n_i, fn_i):
+                if not (isinstance(t, ast.Try) and any(n_i is x for s_ in t.body for x in ast.walk(s_))):
+                    continue
+                for h in t.handlers:
+                    if id(h) in seen_h:
+                        continue
+                    seen_h.add(id(h))
+                    hn = [x for x in g.by_ast.get(id(h), [])]
+                    if not hn:
+                        chk.unknown("O9.5", f"AsyncExecutor.{fn_i.name}: handler `except {u(h.type) if h.type else ''}` has no node in the control-flow graph", h)
+                        continue
+                    ok = all(g.exit.id not in g.reachable([x]) for x in hn)
+                    chk.ob("O9.5", f"AsyncExecutor.{fn_i.name}: handler `except {u(h.type) if h.type else ''}` never completes normally", ok, h,
+                           "every path from this handler ends in raise" if ok else "the handler can fall through / return: the executor future completes without exception")
     # AsyncIoAdapter / gather: exceptions must propagate (no return_exceptions=True)
     for c in source.calls_in(drv.tree, name="asyncio.gather", local=False):
         re_kw = source.arg_of(c, None, "return_exceptions")
@@ -1479,16 +1523,122 @@ def run(chk):
         ok = bool(cs_) and all(under(c, is_set) for c in cs_) and all(under(e_, not_set) and not any(poll_after(c, e_) for c in cs_) for e_ in ex_)
         chk.ob("O9.9", "worker wake-up reports cancellation before polling the future", ok, cs_[0][0] if cs_ else wkh,
                "" if ok else ("no BenchmarkCancelled is sent" if not cs_ else f"expected the report under `{is_set}` and the poll under `{not_set}`"))
-    # the request loop: the first thing an iteration does (logging and plain bindings without calls aside) is an `if` one of whose arms breaks exactly when the cancel event is set
-    # (decided on the guard facts of the break; the event is the executor's attribute the Worker's event arrives in)
-    body_ = [s_ for s_ in loops[0].body if not is_logging_stmt(s_)
-             and not (isinstance(s_, ast.Assign) and not any(isinstance(x, (ast.Call, ast.Await, ast.Yield, ast.YieldFrom)) for x in ast.walk(s_.value)))]
-    first = body_[0] if body_ else loops[0]
+    # the request loop: within an iteration the request (the execute_single call, or the helper call that leads to it) is only reached while the cancel event is NOT set, and the
+    # arm taken when it IS set leaves the loop. Decided on VALUES: every guard fact of the request inside the loop (single-assignment locals and predicate helpers of the executor -
+    # `def _cancelled(self): return self.cancel.is_set()` - looked through) is evaluated with the event's is_set() fixed to True / False; where the test stands in the iteration,
+    # how it is spelled and which function holds the loop do not matter. The event is the executor attribute the Worker's event arrives in (by data flow, see above).
+    def _subst_names(e_, mapping):
+        """e_ (a fresh copy) with the names of the mapping (parameters) replaced by copies of the mapped expressions (arguments)"""
+        class T(ast.NodeTransformer):
+            def visit_Name(self, n):
+                return source.clone(mapping[n.id]) if isinstance(n.ctx, ast.Load) and n.id in mapping else n
+        return T().visit(e_)
+
+    def _pred_body(m_):
+        """the expression a predicate-like helper returns (its body, docstring aside, is a single `return <expr>`), or None"""
+        body = [s_ for s_ in m_.body if not (isinstance(s_, ast.Expr) and isinstance(s_.value, ast.Constant))]
+        return body[0].value if len(body) == 1 and isinstance(body[0], ast.Return) and body[0].value is not None else None
+
+    def _expand_preds(e_, depth=0):
+        """e_ (a fresh copy) with argument-less self.<m>() calls and reads of self.<property> replaced by the expression that executor method returns"""
+        class T(ast.NodeTransformer):
+            def _body_of(self, name, want_property):
+                m_ = model.table.method(ex_ci, name) if depth < 3 else None
+                if m_ is None or want_property != any(last_attr(d_) == "property" for d_ in m_.decorator_list):
+                    return None
+                r_ = _pred_body(m_)
+                return None if r_ is None else _expand_preds(source.inline_node(r_, _ldefs(m_)), depth + 1)
+
+            def visit_Call(self, n):
+                r_ = self._body_of(n.func.attr, False) if is_self_attr(n.func) and not n.args and not n.keywords else None
+                return r_ if r_ is not None else self.generic_visit(n)
+
+            def visit_Attribute(self, n):
+                r_ = self._body_of(n.attr, True) if is_self_attr(n) and isinstance(n.ctx, ast.Load) else None
+                return r_ if r_ is not None else self.generic_visit(n)
+
+        return T().visit(e_)
+
+    def _event_decision(f_, fn):
+        """how a test depends on the cancel event: None - it does not read the event attribute; else (value when the event is set, value when it is not set), evaluated with
+        is_set() fixed - either may be None when the rest of the test (other atoms) leaves it open, e.g. `cancel.is_set() or complete.is_set()` is (True, None)"""
+        e_ = _expand_preds(source.inline_node(f_, _ldefs(fn)))
+        if not any(is_self_attr(x, ev_x) for x in ast.walk(e_)):
+            return None
+
+        def val(b):
+            class T(ast.NodeTransformer):
+                def visit_Call(self, n):
+                    return ast.Constant(value=b) if u(n) == f"self.{ev_x}.is_set()" else self.generic_visit(n)
+            try:
+                return bool(_ev(T().visit(source.clone(e_)), {}))
+            except (CannotEval, TypeError, ValueError):
+                return None
+        return val(True), val(False)
+
+    lab_ = "request loop stops at the next request once cancelled"
     if ev_x is None:
-        chk.unknown("O9.9", "AsyncExecutor.__call__: the cancel event was not identified (see above)", first)
-    else:
-        ok = isinstance(first, ast.If) and any(isinstance(x, ast.Break) and facts_text(x, call, stop=loops[0]) == [f"self.{ev_x}.is_set()"] for x in first.body + first.orelse)
-        chk.ob("O9.9", "request loop stops at the next request once cancelled", ok, first, "")
+        chk.unknown("O9.9", "AsyncExecutor.__call__: the cancel event was not identified (see above)", next(lp[1] for lp, _ in req_loops if lp))
+    for lp, ch in (req_loops if ev_x is not None else []):
+        if lp is None:
+            chk.unknown("O9.9", f"AsyncExecutor: a request ({short(ch[-1][1], 50)}) is reached outside of the schedule loop", ch[-1][1])
+            continue
+        i_loop, L = lp
+        fn_l = ch[i_loop][0]
+        gl = cfg_of(fn_l)
+        head, R = gl.node_of(L), gl.node_of(ch[i_loop][1])
+        tests, reads = [], False  # (if statement, its graph node, edge taken when the event is set, is the test decided by the event alone?)
+        for p in walk_body(fn_l):
+            if isinstance(p, ast.If) and any(a_ is L for a_ in _anc_in(p, fn_l)):
+                d_ = _event_decision(p.test, fn_l)
+                if d_ is not None:
+                    reads = True
+                    if d_[0] is not None and id(p) in gl.by_ast:
+                        tests.append((p, gl.node_of(p), "true" if d_[0] else "false", d_[1] is not None and d_[1] != d_[0]))
+
+        def _set_targets(t):
+            return gl.edge_targets(t[1], t[2])
+
+        def _dominated(ts):
+            """every path from the loop head to the request passes one of the tests"""
+            return bool(ts) and R.id not in gl.reachable([head], avoid=[t[1] for t in ts])
+
+        # tests whose event-is-set edge cannot reach the request within the same iteration ...
+        skips = [t for t in tests if _set_targets(t) and all(R.id not in gl.reachable([s_], avoid=[head]) for s_ in _set_targets(t))]
+        # ... and, of these, the ones whose event-is-set arm leaves the loop (never returns to the loop head: break / return / raise)
+        good = [t for t in skips if not any(gl.path_exists(s_, head, edge_ok=gl.normal_edge) for s_ in _set_targets(t))]
+        wrong = [t for t in tests if t[3] and t not in skips and gl.dominated_by_edge(R, t[1], t[2])]
+        if _dominated(good):
+            chk.ob("O9.9", lab_, True, good[0][0], "")
+        elif _dominated(skips):
+            chk.ob("O9.9", lab_, False, skips[0][0], "when the event is set the request is skipped but the iteration does not leave the loop (no break / return / raise on that arm)")
+        elif wrong:
+            chk.ob("O9.9", lab_, False, wrong[0][0], f"the request is only issued while the cancel event IS set (`{short(wrong[0][0].test, 60)}`)")
+        else:
+            # neither: is every read of the event in the executor accounted for by the located tests (in the test itself, in the single-assignment local it uses, in the
+            # predicate helper it calls)? Then the event is known to be tested only at places an iteration need not pass before the request (located and wrong); a read that
+            # is not understood makes the shape "not recognised"
+            def _explained(x, fn_x):
+                for p, *_ in tests:
+                    names = {n_.id for n_ in ast.walk(p.test) if isinstance(n_, ast.Name)}
+                    helpers = {n_.attr for n_ in ast.walk(p.test) if is_self_attr(n_)}
+                    if fn_x is fn_l and any(a_ is p.test for a_ in [x] + _anc_in(x, fn_l)):
+                        return True
+                    if fn_x is fn_l and any(isinstance(a_, ast.Assign) and len(a_.targets) == 1 and isinstance(a_.targets[0], ast.Name) and a_.targets[0].id in names
+                                            and a_.targets[0].id in _ldefs(fn_l) for a_ in _anc_in(x, fn_l)):
+                        return True
+                    if fn_x is not fn_l and fn_x.name in helpers and _pred_body(fn_x) is not None:
+                        return True
+                return False
+
+            all_reads = [(x, m_) for m_ in ex_ci.methods.values() for x in ast.walk(m_) if isinstance(x, ast.Attribute) and is_self_attr(x, ev_x) and isinstance(x.ctx, ast.Load)]
+            if not all_reads and not reads:
+                chk.ob("O9.9", lab_, False, L, f"no method of the executor ever reads the cancel event self.{ev_x}: the loop cannot stop")
+            elif tests and all(_explained(x, m_) for x, m_ in all_reads):
+                chk.ob("O9.9", lab_, False, tests[0][0], f"the cancel event self.{ev_x} is only tested at places an iteration does not have to pass before the request "
+                       f"({', '.join(loc(t[0]).rsplit(':', 1)[-1] for t in tests)}): a request is still issued after cancellation")
+            else:
+                chk.unknown("O9.9", f"AsyncExecutor.{fn_l.name}: the executor reads its cancel event (self.{ev_x}) but not in a test that every iteration passes before the request - shape not recognised", L)
     trkm = repo.module("esrally/track/track.py")
     chk.use(trkm)
     eb = trkm.methods(trkm.cls("Task")).get("error_behavior")
@@ -1522,39 +1672,98 @@ def run(chk):
     exc_ = [n for m_ in adp_funcs for n in ast.walk(m_) if isinstance(n, ast.Call) and last_attr(n.func) == "AsyncExecutor"]
     if not exc_:
         raise AnchorMissing("AsyncExecutor(...) in a method of AsyncIoAdapter")
+    f0 = source.enclosing_func(exc_[0])
     bound = source.bind_args(exc_[0], exi)
-    hit = None
+    hit = None  # (constructor parameter, the object asked for its error behaviour, adapter attribute handed to it or None)
     for p_, v_ in bound.items():
-        b_ = None
-        if isinstance(v_, ast.Call) and isinstance(v_.func, ast.Attribute) and v_.func.attr == eb.name and isinstance(v_.func.value, ast.Name) and len(v_.args) == 1 and is_self_attr(v_.args[0]):
-            b_ = {"t": v_.func.value.id, "a": v_.args[0].attr}
-        if b_ is not None:
-            hit = (p_, b_["t"], v_.args[0].attr if v_.args and is_self_attr(v_.args[0]) else None)
+        w_ = _through_locals(v_, f0)  # `on_error = task.error_behavior(...)` bound to a local first is the same argument
+        if isinstance(w_, ast.Call) and is_self_attr(w_.func) and drv.methods(ADP).get(w_.func.attr) is not None:
+            # a helper method of the adapter that returns the behaviour (`self._on_error_for(task)`): its returned expression with the call's arguments substituted
+            h_ = drv.methods(ADP)[w_.func.attr]
+            r_ = _pred_body(h_)
+            if r_ is not None:
+                w_ = _subst_names(source.inline_node(r_, _ldefs(h_)), source.bind_args(w_, h_))
+        if isinstance(w_, ast.Call) and isinstance(w_.func, ast.Attribute) and w_.func.attr == eb.name:
+            s_ = _through_locals(source.bind_args(w_, eb).get(dpar), f0)
+            hit = (p_, w_.func.value, s_.attr if is_self_attr(s_) else None)
     if hit is None:
-        # located the constructor call but no argument asks a task for its error behaviour: is the behaviour computed elsewhere (inside the executor)?
-        inner = [n for m_ in drv.methods(ex).values() for n in ast.walk(m_) if isinstance(n, ast.Call) and last_attr(n.func) == eb.name]
+        # located the constructor call but no argument asks a task for its error behaviour: is the behaviour computed elsewhere (inside the executor, in a helper of the adapter)?
+        inner = [n for m_ in list(drv.methods(ex).values()) + adp_funcs for n in ast.walk(m_) if isinstance(n, ast.Call) and last_attr(n.func) == eb.name]
         if inner:
-            chk.unknown("O9.9", f"the task's error behaviour is asked for in AsyncExecutor ({short(inner[0], 60)}), a shape the rule does not follow", inner[0])
+            chk.unknown("O9.9", f"the task's error behaviour is asked for in {source.qualname(source.enclosing_func(inner[0]))} ({short(inner[0], 60)}), a shape the rule does not follow", inner[0])
         else:
-            chk.ob("O9.9", "each executor gets its task's error behaviour derived from the worker's on-error setting", False, exc_[0], f"no constructor argument of the form <task>.{eb.name}(self.<setting>)")
+            chk.ob("O9.9", "each executor gets its task's error behaviour derived from the worker's on-error setting", False, exc_[0],
+                   f"neither a constructor argument of the form <task>.{eb.name}(<setting>) nor any other call of {eb.name} in the adapter or the executor")
         w_src = None
     else:
-        p_, t_, a_attr = hit
-        x_attr = next((n.targets[0].attr for n in walk_body(exi) if isinstance(n, ast.Assign) and len(n.targets) == 1 and is_self_attr(n.targets[0]) and isinstance(n.value, ast.Name) and n.value.id == p_), None)
-        to_single = [c for c in ast.walk(call) if isinstance(c, ast.Call) and last_attr(c.func) == "execute_single" and any(is_self_attr(a_, x_attr) for a_ in list(c.args) + [k.value for k in c.keywords])] if x_attr else []
-        task_is_arg = any(isinstance(v_, ast.Name) and v_.id == t_ for k_, v_ in bound.items() if k_ != p_)
-        if x_attr is None or not to_single:
-            chk.unknown("O9.9", f"AsyncExecutor: the constructor parameter `{p_}` (the task's error behaviour) could not be followed to the execute_single call of the request loop", exc_[0])
+        p_, recv_, a_attr = hit
+        t_ = source.inline(recv_, _ldefs(f0))
+        x_attr = next((n.targets[0].attr for n in walk_body(exi) if isinstance(n, ast.Assign) and len(n.targets) == 1 and is_self_attr(n.targets[0])
+                       and isinstance(_through_locals(n.value, exi), ast.Name) and _through_locals(n.value, exi).id == p_), None)
+
+        def _origins(e_, fn, depth=0):
+            """[(expression, function)] the value of e_ (in method fn of the executor) comes from: single-assignment locals are looked through and a parameter of a helper method
+            is replaced by the arguments bound to it at every self.<helper>(...) call site in the class"""
+            e_ = _through_locals(e_, fn)
+            if isinstance(e_, ast.Name) and depth < 4 and fn is not call and e_.id in params_of(fn) + [k_.arg for k_ in fn.args.kwonlyargs]:
+                sites = [(g_, c) for g_ in ex_ci.methods.values() for c in walk_body(g_) if isinstance(c, ast.Call) and is_self_attr(c.func) and c.func.attr == fn.name]
+                if sites and all(e_.id in source.bind_args(c, fn) for _, c in sites):
+                    return [o_ for g_, c in sites for o_ in _origins(source.bind_args(c, fn)[e_.id], g_, depth + 1)]
+            return [(e_, fn)]
+
+        def _is_attr_value(e_, fn):
+            return all(is_self_attr(o_, x_attr) for o_, _ in _origins(e_, fn))
+
+        # every request (execute_single call reached from __call__, in it or in a helper) is handed that attribute
+        not_fed = [ch[-1] for ch in req_chains if not (x_attr and any(_is_attr_value(a_, ch[-1][0]) for a_ in list(ch[-1][1].args) + [k.value for k in ch[-1][1].keywords]))]
+        # the task handed to the executor is the object that is asked (compared as values: locals looked through, so `task = task_allocation.task` and the attribute chain agree)
+        task_is_arg = any(source.inline(v_, _ldefs(f0)) == t_ for k_, v_ in bound.items() if k_ != p_)
+        if x_attr is None or not_fed:
+            # a literal policy handed to execute_single instead is located and wrong; anything else is a shape that is not followed
+            pol_params = []
+            try:
+                es_fn = drv.func("execute_single")
+                pol_params = [q for q in params_of(es_fn) if any(isinstance(c, ast.Compare) and any(isinstance(x, ast.Name) and x.id == q for x in ast.walk(c))
+                                                                 and any(source.is_const(x, "abort") for x in ast.walk(c)) for c in ast.walk(es_fn))]
+            except AnchorMissing:
+                es_fn = None
+            lit = [(c, o_) for fn_, c in not_fed for q in pol_params if es_fn is not None and q in source.bind_args(c, es_fn, skip_self=False)
+                   for o_, _ in _origins(source.bind_args(c, es_fn, skip_self=False)[q], fn_) if isinstance(o_, ast.Constant)]
+            if lit:
+                chk.ob("O9.9", "each executor gets its task's error behaviour derived from the worker's on-error setting", False, lit[0][0],
+                       f"execute_single is handed the constant {short(lit[0][1], 30)} instead of the executor's error behaviour")
+            else:
+                chk.unknown("O9.9", f"AsyncExecutor: the constructor parameter `{p_}` (the task's error behaviour) could not be followed to the execute_single call of the request loop", exc_[0])
+        elif a_attr is None:
+            chk.unknown("O9.9", f"AsyncIoAdapter: the setting handed to {t_}.{eb.name}(...) could not be followed to an attribute of the adapter", exc_[0])
         else:
-            chk.ob("O9.9", "each executor gets its task's error behaviour derived from the worker's on-error setting", task_is_arg and a_attr is not None, exc_[0],
+            chk.ob("O9.9", "each executor gets its task's error behaviour derived from the worker's on-error setting", task_is_arg, exc_[0],
                    f"{t_}.{eb.name}(self.{a_attr}) -> AsyncExecutor.{x_attr} -> execute_single" + ("" if task_is_arg else f"; `{t_}` is not the task handed to this executor"))
         w_src = ctor_source(wk_funcs, "AsyncIoAdapter", adp_init, a_attr) if a_attr else None
+        if w_src is not None:
+            w_src = _through_locals(w_src, source.enclosing_func(w_src))
     if hit is not None and not is_self_attr(w_src):
         chk.unknown("O9.9", "Worker: the value handed to AsyncIoAdapter as the on-error setting could not be followed to a Worker attribute", Wk.node)
     elif hit is not None:
-        stores = [n for m_ in wk_funcs if m_.name != "__init__" for n in walk_body(m_) if isinstance(n, ast.Assign) and any(is_self_attr(t, w_src.attr) for t in n.targets)]
-        ok = bool(stores) and all(any(source.is_const(x, "on.error") for x in ast.walk(n.value)) for n in stores)
-        chk.ob("O9.9", "worker reads on-error from the driver configuration", ok, stores[0] if stores else Wk.node, f"Worker.{w_src.attr}: {[short(n, 70) for n in stores]}")
+        def _reads_setting(v_, fn):
+            """True: the stored value reads the 'on.error' setting (in place, through a local, or inside a Worker helper it calls); False: it is a constant (located and wrong);
+            None: anything else - a shape the rule does not follow"""
+            v_ = _through_locals(v_, fn)
+            if any(source.is_const(x, "on.error") for x in ast.walk(v_)):
+                return True
+            for c in ast.walk(v_):
+                h_ = model.table.method(Wk, c.func.attr) if isinstance(c, ast.Call) and is_self_attr(c.func) else None
+                if h_ is not None and any(source.is_const(x, "on.error") for x in ast.walk(h_)):
+                    return True
+            return False if isinstance(v_, ast.Constant) else None
+
+        stores = [(m_, n) for m_ in wk_funcs if m_.name != "__init__" for n in walk_body(m_) if isinstance(n, ast.Assign) and any(is_self_attr(t, w_src.attr) for t in n.targets)]
+        verdicts = [_reads_setting(n.value, m_) for m_, n in stores]
+        if not stores or (None in verdicts and False not in verdicts):
+            chk.unknown("O9.9", f"Worker.{w_src.attr} (handed to the load generator as the on-error setting): " + ("no store outside the constructor was located" if not stores else
+                        f"the stored value `{short(stores[verdicts.index(None)][1], 60)}` could not be followed to the 'on.error' setting"), stores[verdicts.index(None)][1] if stores else Wk.node)
+        else:
+            chk.ob("O9.9", "worker reads on-error from the driver configuration", all(v_ is True for v_ in verdicts), stores[0][1], f"Worker.{w_src.attr}: {[short(n, 70) for _, n in stores]}")
 
     # ---- O9.6 no results on error or cancel ----------------------------------------------------------
     chk.rule("O9.6", "in the coordinator every call that computes, stores or prints results (in whichever method; a helper inherits the conditions of its call sites) is reachable only "
